@@ -24,6 +24,11 @@ func c11RunCase(t *testing.T, out *verifh.Out, cfg *c11Cfg, next func(e *c11Env,
 			if !ok {
 				break
 			}
+			if op.code == 19 {
+				reqs, bm := op.batchReqs()
+				line = append(line, e.batch(reqs, bm)...)
+				break
+			}
 			line = append(line, e.exec(op)...)
 		}
 		e.teardown()
@@ -134,6 +139,11 @@ func TestVerifC11(t *testing.T) {
 				total := nops/2 + r.Intn(nops)
 				line := c11RunCase(t, out, cfg, func(e *c11Env, step int) (c11Op, bool) {
 					if step >= total {
+						if step == total && i%2 == 0 {
+							if reqs, bm := e.genBatch(r); len(reqs) >= 2 {
+								return c11BatchOp(reqs, bm), true
+							}
+						}
 						return c11Op{}, false
 					}
 					return e.genOp(r, step, total), true
@@ -178,6 +188,22 @@ func TestVerifC11Replay(t *testing.T) {
 	var ops []c11Op
 	for i < len(toks) {
 		code := int(toks[i])
+		if code == 19 {
+			k, bm := int(toks[i+2]), int(toks[i+3])
+			j := i + 4
+			var reqs []*c11BReq
+			for ; k > 0; k-- {
+				if toks[j] == 12 {
+					reqs = append(reqs, &c11BReq{kind: 12, p: int(toks[j+1]), a: int(toks[j+2])})
+					j += 7
+				} else {
+					reqs = append(reqs, &c11BReq{kind: 13, p: int(toks[j+1]), a: int(toks[j+2]), dst: int(toks[j+3])})
+					j += 6
+				}
+			}
+			ops = append(ops, c11BatchOp(reqs, bm))
+			break
+		}
 		na, ok := c11NArgs[code]
 		if !ok {
 			t.Fatalf("bad op code %d at %d", code, i)
